@@ -448,10 +448,29 @@ class Env:
         self.grown += 1
 
     def ev_shrink(self):
+        pool = self.pool
+        before = (pool._processes, pool._putlock._value,
+                  pool._putlock._initial_value,
+                  [p._controlled_termination for p in pool._pool])
+        busy = [any(p.pid in r['h'].worker_pids() for r in self.jobs
+                    if r['h'] is not None and r['h']._job in pool._cache) or
+                getattr(p, '_controlled_termination', False)
+                for p in pool._pool]
         try:
-            self.pool.shrink(1)
+            pool.shrink(1)
+            if all(busy):
+                raise Violation('shrink() succeeded although every worker '
+                                'is busy')
         except ValueError:
             self.log.append(('shrink-refused',))
+            after = (pool._processes, pool._putlock._value,
+                     pool._putlock._initial_value,
+                     [p._controlled_termination for p in pool._pool])
+            if after != before:
+                raise Violation('refused shrink() changed the pool: %r -> %r'
+                                % (before, after))
+            if not all(busy):
+                raise Violation('shrink() refused although a worker is idle')
 
     def ev_next(self, j):
         rec = self.jobs[j]
